@@ -4,6 +4,8 @@ Implementations of IInput
 import logging
 from datetime import datetime
 
+import numpy as np
+
 from ..data import tools
 from ..data.tools import Info
 from ..errors import FinamMetaDataError
@@ -139,7 +141,11 @@ class Input(IInput, Loggable):
         # transform compatible data between grids
         if self._transform is not None:
             with ErrorLogger(self.logger):
-                data = self._transform(data)
+                # the transform works on single data sets, apply it per time entry
+                mag = tools.get_magnitude(data)
+                parts = [self._transform(mag[i]) for i in range(mag.shape[0])]
+                stack = np.ma.stack if np.ma.isMaskedArray(mag) else np.stack
+                data = tools.UNITS.Quantity(stack(parts), tools.get_units(data))
             self.logger.profile(
                 "converted data between compatible grids (%d entries)", data.size
             )
